@@ -6,6 +6,7 @@ Unknown value stops the run (result.kind == 'stuck'): callers enumerate the whol
 enum, every string of an oracle table) and compare the resulting table row by row with an oracle. This is evaluation of
 the program's IR under all values of a finite type, not execution of acmed.
 """
+import re
 from .mir import CallSite, op_const, op_place, strip_generics
 
 
@@ -218,7 +219,7 @@ def const_val(body, op):
     if c.get("zst"):
         return UNIT
     if "array" in c:
-        return Val("tuple", [Val(**{}) if False else (_cv(x)) for x in c["array"]])
+        return Val("list", [_cv(x) for x in c["array"]])
     if "pp" in c:
         pp = c["pp"]
         # fieldless enum constants are rendered as a path `crate::mod::Enum::Variant`
@@ -243,18 +244,70 @@ def _cv(c):
     return UNKNOWN
 
 
+def _rust_bytes(pp):
+    import ast
+    try:
+        v = ast.literal_eval(pp)
+        return v if isinstance(v, bytes) else None
+    except Exception:
+        return None
+
+
+def _fmt_template(raw):
+    """pieces of a compiled format template (core::fmt::Arguments, byte-encoded): literal strings, None for a `{}` placeholder with
+    default options taking the next argument. Anything else (explicit width/precision/position) -> not evaluated."""
+    out, i = [], 0
+    while i < len(raw):
+        n = raw[i]
+        i += 1
+        if n == 0:
+            return out
+        if n < 0x80:
+            out.append(raw[i:i + n].decode("utf-8", "replace"))
+            i += n
+        elif n == 0x80 and i + 2 <= len(raw):
+            ln = raw[i] | (raw[i + 1] << 8)
+            i += 2
+            out.append(raw[i:i + ln].decode("utf-8", "replace"))
+            i += ln
+        elif n == 0xC0:
+            out.append(None)
+        else:
+            return None
+    return out
+
+
+def _fmt_arg(a):
+    if a.k != "fmtarg":
+        return None
+    v = a.v[0].deref()
+    kind = a.extra
+    if kind == "display" and v.k in ("str", "int", "char"):
+        return str(v.v)
+    if kind == "display" and v.k == "bool":
+        return "true" if v.v else "false"
+    if kind == "lower_hex" and v.k == "int":
+        return "%x" % v.v
+    if kind == "upper_hex" and v.k == "int":
+        return "%X" % v.v
+    return None
+
+
 class _FnValueCall:
     """stand-in for a CallSite when a function VALUE is invoked (through Fn::call or an iterator adaptor)"""
 
     def __init__(self, cs, key):
         self.body, self.bb, self.term = cs.body, cs.bb, cs.term
         self.fn = self.res = self.name = key
+        m = re.match(r"^<.* as ([^<>]+(?:<.*>)?)>::(\w+)$", key)
+        if m:
+            self.fn = "%s::%s" % (strip_generics(m.group(1)), m.group(2))
         self.args, self.dest, self.target, self.line, self.exp = [], None, cs.target, cs.line, cs.exp
         self.gbodies, self.gargs = [], []
 
     def is_(self, *names):
         for n in names:
-            if n == self.name or (n.startswith("*") and self.name.endswith(n[1:])):
+            if n == self.name or n == self.fn or (n.startswith("*") and self.name.endswith(n[1:])):
                 return True
         return False
 
@@ -272,6 +325,7 @@ class Interp:
         self.max_steps = max_steps
         self.depth = 0
         self._res = None
+        self.follow = None      # predicate(CallSite) -> bool: workspace callees to interpret instead of treating as opaque
 
     # ---------------------------------------------------------------- places
     def read_place(self, env, p):
@@ -294,8 +348,15 @@ class Interp:
                         v = UNKNOWN
                     continue
                 if "cidx" in e:
-                    if v.k == "tuple" and e["cidx"] < len(v.v) and not e.get("from_end"):
+                    if v.k in ("tuple", "list") and e["cidx"] < len(v.v) and not e.get("from_end"):
                         v = v.v[e["cidx"]]
+                    else:
+                        v = UNKNOWN
+                    continue
+                if "idx" in e:
+                    ix = env.get(int(e["idx"]), UNKNOWN).deref()
+                    if v.k in ("tuple", "list") and ix.k == "int" and 0 <= ix.v < len(v.v):
+                        v = v.v[ix.v]
                     else:
                         v = UNKNOWN
                     continue
@@ -351,6 +412,11 @@ class Interp:
                                       or a.extra.rsplit("::", 1)[-1] == b.extra.rsplit("::", 1)[-1])
                 return vbool(r if fn.endswith("eq") else not r)
             return UNKNOWN
+        r = self.fmt_models(cs, args, d)
+        if r is not None:
+            return r
+        if cs.is_("alloc::string::ToString::to_string") and d and d[0].k in ("int", "char"):
+            return vstr(str(d[0].v))
         if cs.is_(*TRANSPARENT) and args:
             a = args[0]
             if fn.endswith("clone") or fn.endswith("to_owned") or fn.endswith("to_string") or fn.endswith("into") or fn.endswith("from"):
@@ -394,6 +460,100 @@ class Interp:
             nm = d[0].v if d[0].k == "variant" else d[0].extra[1]
             return vbool(nm == "Some")
         return None
+
+    def fmt_models(self, cs, args, d):
+        """format!/to_string of concrete values, IP address parsing, integer byte views — what the name-building code is made of"""
+        fn = cs.fn or ""
+        nm = cs.name or fn
+        m = fn.rsplit("::", 1)[-1]
+        if fn.startswith("core::fmt::rt::Argument") and m.startswith("new_") and d:
+            return Val("fmtarg", [d[0]], m[4:])
+        if fn.startswith("core::fmt::Arguments") and m in ("new", "new_v1", "new_const", "from_str", "from_str_nonconst") and d:
+            tpl = d[0]
+            if tpl.k == "str":
+                return Val("fmt", [[tpl.v], []])
+            raw = None
+            if tpl.k == "bytes":
+                raw = tpl.v
+            elif tpl.k == "unknown" and isinstance(tpl.v, str) and tpl.v.startswith('b"'):
+                raw = _rust_bytes(tpl.v)
+            pieces = _fmt_template(raw) if raw is not None else None
+            fa = d[1] if len(d) > 1 else Val("tuple", [])
+            if pieces is None or fa.k not in ("tuple", "list"):
+                return None
+            return Val("fmt", [pieces, [x.deref() for x in fa.v]])
+        if fn in ("alloc::fmt::format", "alloc::fmt::format::format_inner") and d and d[0].k == "fmt":
+            pieces, fargs = d[0].v
+            out, i = "", 0
+            for pc in pieces:
+                if pc is not None:
+                    out += pc
+                    continue
+                if i >= len(fargs):
+                    return None
+                t = _fmt_arg(fargs[i])
+                i += 1
+                if t is None:
+                    return None
+                out += t
+            return vstr(out)
+        if fn == "core::hint::must_use" and args:
+            return args[0]
+        if fn.startswith(("core::ops::bit::", "core::ops::arith::")) and len(d) == 2 and d[0].k == "int" and d[1].k == "int":
+            x, y = d[0].v, d[1].v
+            ops = {"bitand": lambda: x & y, "bitor": lambda: x | y, "bitxor": lambda: x ^ y, "shr": lambda: x >> y if 0 <= y < 128 and x >= 0 else None,
+                   "add": lambda: x + y, "sub": lambda: x - y, "mul": lambda: x * y, "div": lambda: x // y if y > 0 and x >= 0 else None,
+                   "rem": lambda: x % y if y > 0 and x >= 0 else None}
+            if m in ops:
+                r = ops[m]()
+                return vint(r) if r is not None else None
+        if "FromStr for core::net::ip_addr::Ip" in nm and m == "from_str" and d and d[0].k == "str":
+            import ipaddress
+            try:
+                ip = ipaddress.ip_address(d[0].v)
+            except ValueError:
+                return Val("adt", [Val("unknown", "AddrParseError")], ("core::result::Result", "Err"))
+            inner = Val("ip", list(ip.packed), ip.version)
+            if "IpAddr>" in nm or nm.endswith("IpAddr>::from_str") or "for core::net::ip_addr::IpAddr" in nm:
+                inner = Val("adt", [inner], ("core::net::ip_addr::IpAddr", "V4" if ip.version == 4 else "V6"))
+            return ok(inner)
+        if fn in ("core::net::ip_addr::Ipv4Addr::octets", "core::net::ip_addr::Ipv6Addr::octets") and d and d[0].k == "ip":
+            return Val("list", [vint(x) for x in d[0].v])
+        if m in ("to_ne_bytes", "to_le_bytes", "to_be_bytes") and "<impl u8>" in fn and d and d[0].k == "int":
+            return Val("list", [vint(d[0].v & 0xff)])
+        if m == "join" and fn.startswith("alloc::slice::") and len(d) > 1 and d[0].k in ("list", "tuple") and d[1].k in ("str", "char"):
+            parts = [x.deref() for x in d[0].v]
+            if all(x.k == "str" for x in parts):
+                return vstr(d[1].v.join(x.v for x in parts))
+        return None
+
+    def follow_call(self, cs, args):
+        """interpret a workspace callee selected by self.follow (same call model, nested trace merged into this one)"""
+        prog = getattr(self.body, "prog", None)
+        if prog is None or not self.follow(cs):
+            return None
+        key = None
+        for nm in (cs.term.get("res"), cs.term.get("fn")):
+            for cand in (nm, strip_generics(nm) if nm else None):
+                if cand and cand in prog.bodies:
+                    key = cand
+                    break
+            if key:
+                break
+        if key is None:
+            return None
+        cb = prog.body(key)
+        if cb is None or cb.kind not in ("Fn", "AssocFn") or cb.raw.get("is_async"):
+            return None
+        sub = Interp(cb, self.call_model, self.max_steps)
+        sub.depth = self.depth + 1
+        sub.follow = self.follow
+        r = sub.run({1 + i: a for i, a in enumerate(args)})
+        if self._res is not None:
+            self._res.calls.extend(r.calls)
+        if r.kind != "return" or r.ret is None:
+            return Val("unknown", "ret:%s(%s)" % (key, r.kind))
+        return r.ret
 
     # ---------------------------------------------------------------- concrete lists and iterator chains
     def stateful_call(self, env, cs, args):
@@ -569,7 +729,7 @@ class Interp:
             pats = None
             if p.k in ("str", "char"):
                 pats = [p.v]
-            elif p.k == "tuple" and all(x.deref().k == "char" for x in p.v):
+            elif p.k in ("tuple", "list") and all(x.deref().k == "char" for x in p.v):
                 pats = [x.deref().v for x in p.v]
             if pats:
                 out = s0
@@ -602,12 +762,11 @@ class Interp:
             # a function item of another crate passed as a value (`map(Uid::from_raw)`): ask the rule's call model as if it were
             # called directly
             fake = _FnValueCall(cs, key)
-            if self.call_model is not None:
-                r = self.call_model(fake, list(cargs))
-                if r is not None:
-                    if self._res is not None:
-                        self._res.calls.append((fake, list(cargs), r))
-                    return r
+            r = self.model_call(fake, list(cargs))
+            if r is not None:
+                if self._res is not None:
+                    self._res.calls.append((fake, list(cargs), r))
+                return r
             return Val("unknown", "ret:%s" % key)
         if cb is None or self.depth > 6:
             return UNKNOWN
@@ -649,6 +808,8 @@ class Interp:
             return a if pos else args[1]
         if m == "and" and is_opt:
             return args[1] if pos else a
+        if m in ("unwrap", "expect", "unwrap_unchecked") and pos:
+            return payload
         if m == "unwrap_or":
             return payload if pos else args[1]
         if m == "unwrap_or_default":
@@ -749,6 +910,8 @@ class Interp:
                 cs = CallSite(body, bb, t)
                 args = [self.operand(env, a) for a in cs.args]
                 r = self.stateful_call(env, cs, args)
+                if r is None and self.follow is not None and self.depth < 6:
+                    r = self.follow_call(cs, args)
                 if r is None:
                     r = self.model_call(cs, args)
                 if r is None:
@@ -794,7 +957,9 @@ class Interp:
             return UNKNOWN
         if k == "agg":
             ops = [self.operand(env, o) for o in rv["ops"]]
-            if rv.get("agg") == "tuple" or rv.get("agg") == "array":
+            if rv.get("agg") == "array":
+                return Val("list", ops)
+            if rv.get("agg") == "tuple":
                 return Val("tuple", ops)
             if rv.get("agg") == "adt":
                 if not ops:
@@ -815,9 +980,13 @@ class Interp:
                 if op in table:
                     return vbool(table[op])
                 if a.k == "int":
-                    ar = {"Add": x + y, "Sub": x - y, "Mul": x * y, "BitAnd": x & y, "BitOr": x | y}
+                    ar = {"Add": x + y, "Sub": x - y, "Mul": x * y, "BitAnd": x & y, "BitOr": x | y, "BitXor": x ^ y}
                     if op in ar:
                         return vint(ar[op])
+                    if op in ("Shr", "ShrUnchecked") and 0 <= y < 128 and x >= 0:
+                        return vint(x >> y)
+                    if op in ("Div", "Rem") and y > 0 and x >= 0:
+                        return vint(x // y if op == "Div" else x % y)
                     if op in ("AddWithOverflow", "SubWithOverflow", "MulWithOverflow"):
                         r = {"AddWithOverflow": x + y, "SubWithOverflow": x - y, "MulWithOverflow": x * y}[op]
                         return Val("tuple", [vint(r), vbool(False)])
@@ -830,8 +999,10 @@ class Interp:
         return UNKNOWN
 
 
-def run(body, init, call_model=None, max_steps=4000):
-    return Interp(body, call_model, max_steps).run(init)
+def run(body, init, call_model=None, max_steps=4000, follow=None):
+    it = Interp(body, call_model, max_steps)
+    it.follow = follow
+    return it.run(init)
 
 
 def some(v):
@@ -872,7 +1043,7 @@ def success_model(body, overrides=None, skip_unknown_loops=False):
                 return r
         if cs.fn == "core::future::future::Future::poll":
             return Val("adt", [Val("adt", [Val("unknown", "ret:%s" % cs.res)], ("core::result::Result", "Ok"))], ("core::task::poll::Poll", "Ready")) \
-                if _dest_is(body, cs, "Poll<core::result::Result<") else Val("adt", [Val("unknown", "ret:%s" % cs.res)], ("core::task::poll::Poll", "Ready"))
+                if _dest_is(cs.body, cs, "Poll<core::result::Result<") else Val("adt", [Val("unknown", "ret:%s" % cs.res)], ("core::task::poll::Poll", "Ready"))
         if cs.fn in ("core::result::Result::map_err", "core::result::Result::map") and args:
             return args[0]
         if cs.fn in ("core::future::into_future::IntoFuture::into_future", "core::pin::Pin::new_unchecked") and args:
@@ -880,7 +1051,7 @@ def success_model(body, overrides=None, skip_unknown_loops=False):
         if skip_unknown_loops and cs.fn == "core::iter::traits::iterator::Iterator::next" and args and args[0].deref().k != "iter":
             # a loop over a collection whose content is not modelled (e.g. copying an environment map): stepped over
             return NONE_V
-        if cs.dest is not None and _dest_is(body, cs, "core::result::Result<"):
+        if cs.dest is not None and _dest_is(cs.body, cs, "core::result::Result<"):
             return Val("adt", [Val("unknown", "ret:%s" % cs.name)], ("core::result::Result", "Ok"))
         return None
     return model
